@@ -151,6 +151,28 @@ struct Out {
 // ------------------------------------------------------------------------------------------
 // problem data, selected through the repository's own selection table
 // ------------------------------------------------------------------------------------------
+// Boundary data handed to the library are POISONED outside the place each function is specified for: u_D is the datum on the
+// outer boundary (valid for r > 0.75 Rmax here), u_D_Interior the datum on the inner boundary (valid for r < 0.5 Rmax; every inner
+// radius used by the checks is <= 0.1).  All shipped boundary classes implement both functions with the same body, so a call of
+// the wrong one - or of the right one at the wrong radius - is invisible with the shipped classes and lands on 1e6 here.
+struct PoisonedBoundaryConditions : public BoundaryConditions {
+    std::unique_ptr<const BoundaryConditions> inner;
+    double Rmax;
+    PoisonedBoundaryConditions(std::unique_ptr<const BoundaryConditions> b, double rmax)
+        : inner(std::move(b))
+        , Rmax(rmax)
+    {
+    }
+    double u_D(const double& r, const double& theta, const double& sin_theta, const double& cos_theta) const override
+    {
+        return r > 0.75 * Rmax ? inner->u_D(r, theta, sin_theta, cos_theta) : 1e6;
+    }
+    double u_D_Interior(const double& r, const double& theta, const double& sin_theta, const double& cos_theta) const override
+    {
+        return r < 0.5 * Rmax ? inner->u_D_Interior(r, theta, sin_theta, cos_theta) : -1e6;
+    }
+};
+
 struct Problem {
     std::unique_ptr<const DomainGeometry> geo;
     std::unique_ptr<const DensityProfileCoefficients> coef;
@@ -176,7 +198,7 @@ struct Problem {
         Problem p;
         p.geo   = std::move(g.domain_geometry_);
         p.coef  = std::move(g.density_profile_coefficients_);
-        p.bc    = std::move(g.boundary_conditions_);
+        p.bc    = std::make_unique<PoisonedBoundaryConditions>(std::move(g.boundary_conditions_), Rmax);
         p.src   = std::move(g.source_term_);
         p.exact = std::move(g.exact_solution_);
         return p;
